@@ -27,7 +27,8 @@ PROPS["C18"] = dict(
     rule="strings enumerated over {a z 0 9 _ A - space { `} up to length 5/8, all compositions of 1..38 characters into 1..5 segments with leading/trailing/doubled underscore variants, rapid random byte/unicode/near-language strings and helper-built names; non-trivial = accepted, or rejected although drawn from the right alphabet",
     steps=[
         dict(test="^TestC18_(Replay|ExhaustiveAlphabet|Compositions)$", quick=dict(timeout=600), thorough=dict(shards=5, timeout=1800)),
-        dict(test="^TestC18_(Random|Lifecycle)$", quick=dict(checks=3000, timeout=600), thorough=dict(checks=40000, shards=8, timeout=1800)),
+        dict(test="^TestC18_Random$", quick=dict(checks=3000, timeout=600), thorough=dict(checks=40000, shards=8, timeout=1800)),
+        dict(test="^TestC18_Lifecycle$", quick=dict(checks=300, timeout=600), thorough=dict(checks=5000, shards=4, timeout=1800)),
     ],
 )
 
